@@ -9,6 +9,7 @@ import (
 	"io"
 	"math"
 	"math/rand"
+	"runtime/debug"
 	"strconv"
 	"strings"
 
@@ -360,6 +361,17 @@ func decodeBuffer(kind string, in []byte) (o decOut) {
 	return
 }
 
+func guardedDecode(kind string, in []byte) (o decOut) {
+	old := debug.SetPanicOnFault(true)
+	defer debug.SetPanicOnFault(old)
+	defer func() {
+		if p := recover(); p != nil {
+			o = decOut{panicd: true, val: "{}"}
+		}
+	}()
+	return decodeBuffer(kind, in)
+}
+
 func decodeStream(kind string, in []byte, r *thrift.BufferReader) (o decOut) {
 	defer func() {
 		if p := recover(); p != nil {
@@ -474,7 +486,11 @@ func runWireCase(raw json.RawMessage, w *TraceWriter) {
 	}
 	inJSON := projectWire(in, lo, hi, c.SSeed)
 	// buffer reader
-	o := decodeBuffer(c.Kind, in)
+	gin := guardCopy(in) // flush against a PROT_NONE page: an out-of-slice load faults instead of reading neighbours
+	if gin == nil {
+		gin = in
+	}
+	o := guardedDecode(c.Kind, gin)
 	w.Ev("dec", "api", "buffer", "kind", c.Kind, "frag", "slice", "in", inJSON, "ok", o.ok, "n", o.n, "used", o.n, "val", Raw(o.val),
 		"tid", tidOf(o.err), "srcerr", false, "panic", o.panicd)
 	// stream reader under fragmentations (it allocates the declared string length: capped)
